@@ -26,7 +26,7 @@ func init() {
 	register(&propDef{
 		ID:  "C11",
 		Run: runC11,
-		Explain: "Decided: (a) non-numeric input yields the error marker, never a number: in every stage closure of pkg/expressions/stdlib each (value, ok) or (value, err) result of a parse or typed-argument evaluation is tested before it can be overwritten or the closure returns, and on the failure branch the closure returns one of the Error* markers without using the value; (b) registry and documentation agree: every helper registered in StandardFunctions is documented in docs/usage (expressions.md / json.md) and every documented helper is registered. " +
+		Explain: "Decided: (a) non-numeric input yields the error marker, never a number: in every stage closure of pkg/expressions/stdlib each (value, ok) or (value, err) result of a parse or typed-argument evaluation is tested before it can be overwritten or the closure returns, and on the failure branch the closure returns one of the Error* markers without using the value; (b) registry and documentation agree: every documented helper is registered (registered-but-undocumented helpers are listed as advisory); (c) two documented laws that are visible as branch guards: clamp answers min/max only strictly outside the bounds and the value exactly inside them, and the csv helper emits a field without doubling its quotes only where the field is known to contain none. " +
 			"NOT decided: every numeric and string law of the ~60 helpers (bucket floors, clamp bounds, separators, unit scaling, CSV quoting) - these are value-level.",
 		Assume: []string{},
 	})
@@ -319,6 +319,8 @@ const stdlibPkg = "rare/pkg/expressions/stdlib"
 func runC11(c *Ctx, r *Report) {
 	c11ErrorMarkers(c, r)
 	c11Docs(c, r)
+	c11Clamp(c, r)
+	c11Csv(c, r)
 }
 
 func c11ErrorMarkers(c *Ctx, r *Report) {
@@ -541,4 +543,117 @@ func c11Docs(c *Ctx, r *Report) {
 	r.Extra["registered_helpers"] = len(reg)
 	r.Extra["documented_helpers"] = nDoc
 	r.Floor(rule, 60, "about 80 registered helpers")
+}
+
+// c11Clamp: clamp returns the value exactly when min <= v <= max: the "min"
+// result needs v < min (strict), the "max" result v > max (strict), and the
+// value itself is returned only with both comparisons known false.
+func c11Clamp(c *Ctx, r *Report) {
+	const rule = "C11-c/clamp-bounds"
+	fi := c.MustFunc(r, rule, stdlibPkg, "kfClamp")
+	if fi == nil {
+		return
+	}
+	info := fi.Pkg.TypesInfo
+	vi := analyseVars(info, fi.Decl)
+	n := 0
+	for _, fl := range funcLitsIn(fi.Decl.Body) {
+		if !isStageLit(info, fl) {
+			continue
+		}
+		fg := NewFGraph(fl.Body, info)
+		fg.SolveFacts(vi)
+		pr := &prover{info: info, vi: vi, fg: fg, body: fl.Body}
+		inspectNoLit(fl.Body, func(x ast.Node) bool {
+			rs, ok := x.(*ast.ReturnStmt)
+			if !ok || len(rs.Results) != 1 {
+				return true
+			}
+			facts := fg.FactsAtPos(rs.Pos())
+			if s, isS := constString(info, rs.Results[0]); isS {
+				switch s {
+				case "min":
+					n++
+					r.Check(pr.holdsText("val < min", facts), rule, fi.Name, `return "min"`, c.Pos(rs.Pos()), "guard: only for values strictly below the lower bound", "clamp answers \"min\" for a value that is not strictly below the lower bound (the bound itself must be returned unchanged)")
+				case "max":
+					n++
+					r.Check(pr.holdsText("val > max", facts), rule, fi.Name, `return "max"`, c.Pos(rs.Pos()), "guard: only for values strictly above the upper bound", "clamp answers \"max\" for a value that is not strictly above the upper bound")
+				}
+				return true
+			}
+			if o := identObj(info, rs.Results[0]); o != nil && !strings.HasPrefix(o.Name(), "Error") {
+				if _, isConst := o.(*types.Const); !isConst {
+					n++
+					r.Check(pr.holdsText("val >= min", facts) && pr.holdsText("val <= max", facts), rule, fi.Name, "return the value", c.Pos(rs.Pos()), "guard: the value is returned exactly inside [min, max]", "clamp returns the value although it may lie outside [min, max]")
+				}
+			}
+			return true
+		})
+	}
+	if n < 3 {
+		r.Notes = append(r.Notes, "kfClamp does not have the three-way return shape; clamp bounds were not checked")
+	}
+}
+
+// c11Csv: a field is wrapped in quotes without doubling embedded quotes only
+// where it is known to contain none.
+func c11Csv(c *Ctx, r *Report) {
+	const rule = "C11-c/csv-quoting"
+	fi := c.MustFunc(r, rule, stdlibPkg, "csvItemEncode")
+	if fi == nil {
+		return
+	}
+	info := fi.Pkg.TypesInfo
+	vi := analyseVars(info, fi.Decl)
+	fg := NewFGraph(fi.Decl.Body, info)
+	fg.SolveFacts(vi)
+	var param types.Object
+	if len(fi.Decl.Type.Params.List) == 1 && len(fi.Decl.Type.Params.List[0].Names) == 1 {
+		param = info.Defs[fi.Decl.Type.Params.List[0].Names[0]]
+	}
+	n := 0
+	inspectNoLit(fi.Decl.Body, func(x ast.Node) bool {
+		rs, ok := x.(*ast.ReturnStmt)
+		if !ok || len(rs.Results) != 1 {
+			return true
+		}
+		// does the result contain the raw parameter (not through ReplaceAll)?
+		raw := false
+		var walk func(e ast.Expr)
+		walk = func(e ast.Expr) {
+			e = ast.Unparen(e)
+			switch t := e.(type) {
+			case *ast.Ident:
+				if info.Uses[t] == param {
+					raw = true
+				}
+			case *ast.BinaryExpr:
+				walk(t.X)
+				walk(t.Y)
+			}
+		}
+		walk(rs.Results[0])
+		if !raw {
+			return true
+		}
+		n++
+		// no quote known: a ContainsAny/Contains(s, ...) with a needle that includes the quote is known false
+		noQuote := false
+		for _, f := range fg.FactsAtPos(rs.Pos()) {
+			ce, ok := ast.Unparen(f.Cond).(*ast.CallExpr)
+			if !ok || f.Truth || f.Tag != nil || len(ce.Args) != 2 || identObj(info, ce.Args[0]) != param {
+				continue
+			}
+			name := calleeName(info, ce)
+			if needle, isS := constString(info, ce.Args[1]); isS && strings.Contains(needle, "\"") {
+				if name == "strings.ContainsAny" || (name == "strings.Contains" && needle == "\"") || name == "strings.ContainsRune" {
+					noQuote = true
+				}
+			}
+		}
+		r.Check(noQuote, rule, fi.Name, "return "+exprStr(rs.Results[0]), c.Pos(rs.Pos()), "guard: the raw field is emitted only where it is known to contain no quote", "a CSV field is emitted (possibly wrapped in quotes) without doubling embedded quotes on a path where it may contain a quote: `a,\"b\"` becomes \"a,\"b\"\", which no longer parses back to the argument")
+		return true
+	})
+	r.Floor(rule, 2, "comma-only wrap and plain return")
+	_ = n
 }
